@@ -41,6 +41,7 @@ type c03Op struct {
 	Delta    map[string]int64 `json:"delta,omitempty"`
 	Runtime  bool             `json:"runtime,omitempty"`
 	CheckPar bool             `json:"checkParent,omitempty"`
+	Scale    bool             `json:"scale,omitempty"`
 }
 
 var c03Dims = []string{"cpu", "memory"}
@@ -132,12 +133,14 @@ func c03Run(t *testing.T, rec *vu.Recorder, script []c03Op) {
 	if len(script) == 0 || script[0].Op != "reset" {
 		panic("script must start with reset")
 	}
-	// min-quota scaling (float arithmetic, refreshed lazily per path) is switched off: C02/C03 are decided on the unscaled mins
-	suit := newPluginTestSuit(t, nil, func(a *config.ElasticQuotaArgs) { a.EnableMinQuotaScale = false })
+	// min-quota scaling (float arithmetic, refreshed lazily per path; the plugin's default) is on in every other segment:
+	// the spec then takes the scaled mins in force from the logged calculator levels (bounded by the declared mins)
+	scale := script[0].Scale
+	suit := newPluginTestSuit(t, nil, func(a *config.ElasticQuotaArgs) { a.EnableMinQuotaScale = scale })
 	gp := suit.createPlugin(t).(*Plugin)
 	gp.pluginArgs.EnableRuntimeQuota = script[0].Runtime
 	gp.pluginArgs.EnableCheckParentQuota = script[0].CheckPar
-	rec.Reset(vu.Ev{"runtime": script[0].Runtime, "checkParent": script[0].CheckPar})
+	rec.Reset(vu.Ev{"runtime": script[0].Runtime, "checkParent": script[0].CheckPar, "scale": scale})
 	quotas := map[string]*v1alpha1.ElasticQuota{}
 	pods := map[string]*corev1.Pod{}
 	nodeSeq := 0
@@ -206,8 +209,8 @@ func c03Run(t *testing.T, rec *vu.Recorder, script []c03Op) {
 }
 
 // ---- seeded random closed-loop driver ----
-func c03Random(rng *rand.Rand, n int, runtime, checkParent bool) []c03Op {
-	out := []c03Op{{Op: "reset", Runtime: runtime, CheckPar: checkParent}}
+func c03Random(rng *rand.Rand, n int, runtime, checkParent, scale bool) []c03Op {
+	out := []c03Op{{Op: "reset", Runtime: runtime, CheckPar: checkParent, Scale: scale}}
 	vec := func(max int64) map[string]int64 {
 		return map[string]int64{"cpu": rng.Int63n(max + 1), "memory": rng.Int63n(max + 1)}
 	}
@@ -305,7 +308,7 @@ func TestVerifC03(t *testing.T) {
 	}
 	rng := vu.Rand(3)
 	for i := 0; i < n; i++ {
-		c03Run(t, rec, c03Random(rng, length, i%2 == 0, (i/2)%2 == 0))
+		c03Run(t, rec, c03Random(rng, length, i%2 == 0, (i/2)%2 == 0, (i/4)%2 == 1))
 	}
 	t.Logf("C03: %d segments, %d events", rec.Segments(), rec.Events())
 }
